@@ -2,6 +2,7 @@ package main
 
 import (
 	"fmt"
+	"go/token"
 	"go/types"
 	"strings"
 
@@ -109,9 +110,27 @@ func (x *Exec) havocLoop(fr *Frame, st *State, h *ssa.BasicBlock, body map[*ssa.
 	keys := map[string]bool{}
 	cells := map[*ssa.Alloc]bool{}
 	anyCall := false
+	addStmtGhosts := func() {
+		if c := fr.contract; c != nil && fr.depth == 0 {
+			for _, ef := range c.OnGo {
+				keys["G|"+ef.Ghost] = true
+			}
+			for _, effs := range c.OnRecv {
+				for _, ef := range effs {
+					keys["G|"+ef.Ghost] = true
+				}
+			}
+		}
+	}
 	for b := range body {
 		for _, ins := range b.Instrs {
 			switch t := ins.(type) {
+			case *ssa.Select:
+				addStmtGhosts()
+			case *ssa.UnOp:
+				if t.Op == token.ARROW {
+					addStmtGhosts()
+				}
 			case *ssa.Store:
 				if a := rootAlloc(t.Addr); a != nil && !a.Heap {
 					if _, isArr := deref(a.Type()).Underlying().(*types.Array); !isArr {
@@ -125,6 +144,9 @@ func (x *Exec) havocLoop(fr *Frame, st *State, h *ssa.BasicBlock, body map[*ssa.
 			case *ssa.Defer:
 				x.unsupp("defer inside a loop in %s", shortFn(fr.fn))
 			case ssa.CallInstruction:
+				if _, isGo := ins.(*ssa.Go); isGo {
+					addStmtGhosts()
+				}
 				if _, isBuiltin := t.Common().Value.(*ssa.Builtin); !isBuiltin {
 					anyCall = true
 				}
@@ -151,14 +173,7 @@ func (x *Exec) havocLoop(fr *Frame, st *State, h *ssa.BasicBlock, body map[*ssa.
 			}
 		}
 	}
-	if anyCall {
-		// inlined callees may apply ghost effects of contracts they call
-		for _, fc := range x.db.FuncList {
-			for _, ef := range fc.Effects {
-				keys["G|"+ef.Ghost] = true
-			}
-		}
-	}
+	_ = anyCall // ghost effects of (transitive) callees arrive as G| keys through the effect summaries
 	for a := range cells {
 		et := deref(a.Type())
 		st.cells[a] = x.freshOfType(st, "hv_"+a.Comment, et)
